@@ -624,6 +624,20 @@ Qed.
 Lemma RJ_maint_finish fuel mid wo w : RJ w (maint_finish fuel nw mid wo w).
 Proof. unfold maint_finish. eapply RJ_trans; [apply RJ_restore|apply RJ_maint_call]. Qed.
 
+Lemma RJ_rewire fuel w d ups : RJ w (rewire fuel nw w d ups).
+Proof.
+  unfold rewire. set (x := getd w d). destruct (existsb (bad_up d w) ups); [Jt|].
+  match goal with |- RJ w (fold_left _ ups (updd (fold_left _ _ ?w0') d _)) => set (w0 := w0') end.
+  assert (R0 : RJ w w0).
+  { unfold w0. destruct (is_holder (d_kind x)); [|Jt]. destruct (d_wait_since x); [|Jt]. apply (RJ_dev w d (fun _ => True)); [kt|exact I]. }
+  apply (RJ_trans w w0); [exact R0|].
+  set (w1 := fold_left (fun w' u => updd w' u (t_down_del d)) (d_up x) w0).
+  apply (RJ_trans w0 w1); [unfold w1; apply RJ_fold; intros w' u; apply (RJ_dev w' u (fun _ => True)); [intros y _; split; [reflexivity|intros _; reflexivity]|exact I]|].
+  apply (RJ_trans w1 (updd w1 d (t_up ups))); [apply (RJ_dev w1 d (fun _ => True)); [intros y _; split; [reflexivity|intros _; reflexivity]|exact I]|].
+  apply RJ_fold. intros w' u. destruct (existsb (Z.eqb d) (d_down (getd w' u))); [Jt|].
+  apply (RJ_trans w' (updd w' u (t_down_add d))); [apply (RJ_dev w' u (fun _ => True)); [intros y _; split; [reflexivity|intros _; reflexivity]|exact I]|apply RJ_signal].
+Qed.
+
 Lemma RJ_run_uop fuel w o : RJ w (run_uop fuel nw w o).
 Proof.
   unfold run_uop. destruct (negb (okf w)); [Jt|]. destruct o.
@@ -635,6 +649,7 @@ Proof.
     match goal with |- context[t_budget ?z] => jdev w d (t_budget z) (fun _ : dev => True); [exact I|] end.
     destruct (_ <? 1); [apply RJ_sched_pass|Jt].
   - apply (RJ_dev w d (fun _ => True)); [kt|exact I].
+  - apply RJ_rewire.
   - apply RJ_rm_call.
   - apply RJ_create_wo.
 Qed.
